@@ -1,12 +1,121 @@
-import XmpModel.FmtMod
+import XmpProofs.FmtMod
+import XmpProofs.FmtS3m
+import XmpProofs.FmtXm
+import XmpProofs.FmtIt
 /-!
 # C19 — Core-format loaders reproduce what an independent writer encoded
+
+Statement (properties.jsonl): for every well-formed MOD, S3M, XM or IT file produced by an
+independent encoder from an abstract song, the loaded module contains exactly that song.
+
+Over the models `XmpModel/Fmt{Mod,S3m,Xm,It}.lean` (`write` = the independent encoder written from the
+format descriptions, `read` = the mirror of the libxmp loaders, `Module` = the abstract song in the
+vocabulary of `xmp_get_module_info`):
+
+* **MOD, whole file** — `C19_roundtrip_mod`: `WellFormed s o → NoAdpcm s.smps → read (write s o) = some s`
+  for every signature kind ("M.K.", "M!K!", nCHN, nnCH), every opaque effect stream, every restart byte.
+  `C19_mod_adpcm_hypothesis_needed` shows that the `NoAdpcm` hypothesis cannot be dropped.
+* **S3M pattern codec** — `C19_s3m_pattern_codec`: unpack ∘ pack = id for every choice of redundant
+  `what`-byte flags and effect bytes, with the 16-bit length word and arbitrary following bytes.
+* **XM pattern-cell codec** — `C19_xm_cell_codec` / `C19_xm_cells_codec`: unpacked cells and packed cells
+  with every superset of the needed mask bits, opaque effect and volume-column-effect bytes.
+* **IT field codecs** — `C19_it_field_codecs_partial` (see below for what is missing).
+* shared: `C19_pcm_sign8_involutive`.
+
+Full statements that are NOT proved (the file-level assembly of S3M, XM, IT and the IT mask/last-value
+pattern compression); they are evaluated on every generated case of every run instead (`rt ok` of
+`drv_c19`, evidence keys `*_model_roundtrip_ok`):
+
+    theorem C19_roundtrip_s3m : S3m.WellFormed s o → S3m.read (S3m.write s o) = some s
+    theorem C19_roundtrip_xm  : Xm.WellFormed s o  → Xm.read (Xm.write s o) = some (Xm.loaded s)
+    theorem C19_roundtrip_it  : It.WellFormed s o  → It.read (It.write s o) = some s
+    theorem C19_it_pattern_codec : 1 ≤ chn ∧ chn ≤ 64 → It.PatOk chn p →
+        (It.unpackData chn p.rows (It.pack chn p opt i)).flatten = p.cells
 -/
 namespace Xmp.Fmt
+open Xmp
+
+/-! ## MOD -/
 
 /-- every period of the writer's table is decoded by `libxmp_period_to_note` to the note it encodes -/
 theorem C19_mod_period_roundtrip :
     ∀ n ∈ List.range 60, Mod.periodToNote (Mod.noteToPeriod (Mod.noteBase + n)) = Mod.noteBase + n := by
   decide +kernel
+
+/-- **MOD whole-file round trip.** -/
+theorem C19_roundtrip_mod (s : Module) (o : Mod.Opts) (h : Mod.WellFormed s o) (hA : Mod.NoAdpcm s.smps) :
+    Mod.read (Mod.write s o) = some s :=
+  Mod.roundtrip s o h hA
+
+/-- a non-trivial instance of the hypotheses: 4 channels, two patterns, a looped and an unlooped sample -/
+def modExample : Module :=
+  let emptySlot : Ins × Smp := ({ name := [], subs := [] }, { name := [], len := 0, lps := 0, lpe := 0, flg := 0, pcm := [] })
+  let s1 : Ins × Smp :=
+    ({ name := Mod.str "lead", subs := [{ sid := 0, vol := 64, pan := 0x80, xpo := 0, fin := -16 }] },
+     { name := [], len := 8, lps := 2, lpe := 8, flg := FLOOP, pcm := [1, 2, 3, 4, 5, 6, 7, 8] })
+  let s2 : Ins × Smp :=
+    ({ name := Mod.str "kick", subs := [{ sid := 1, vol := 40, pan := 0x80, xpo := 0, fin := 0 }] },
+     { name := [], len := 6, lps := 0, lpe := 0, flg := 0, pcm := [0x41, 0x44, 0x50, 0x43, 0x4c, 9] })
+  let slots := s1 :: s2 :: List.replicate 29 emptySlot
+  let cell (n i : Nat) : Cell := { note := n, ins := i, vol := 0 }
+  let pat (f : Nat → Cell) : Pat := { rows := 64, cells := (List.range 256).map f }
+  { name := Mod.str "example", chn := 4, orders := [0, 1, 0],
+    pats := [pat fun k => if k % 16 = 0 then cell 49 1 else {}, pat fun k => if k % 8 = 3 then cell 96 2 else {}],
+    ins := slots.map (·.1), smps := slots.map (·.2), spd := 6, bpm := 125 }
+
+example : Mod.WellFormed modExample {} ∧ Mod.NoAdpcm modExample.smps := by decide +kernel
+example : Mod.read (Mod.write modExample {}) = some modExample :=
+  C19_roundtrip_mod _ _ (by decide +kernel) (by decide +kernel)
+
+/-- `WellFormed` alone is not sufficient: two short samples whose bodies together spell "ADPCM"
+make the loader (and the model) take the first one for a ModPlug ADPCM sample. -/
+theorem C19_mod_adpcm_hypothesis_needed :
+    Mod.WellFormed Mod.cx { kind := 1 } ∧ Mod.read (Mod.write Mod.cx { kind := 1 }) = none :=
+  Mod.wellFormed_not_sufficient
+
+/-! ## S3M -/
+
+/-- **S3M pattern codec**, all `what`-flag choices -/
+theorem C19_s3m_pattern_codec (chn : Nat) (p : Pat) (force : Nat → Nat) (fx : Nat → UInt8 × UInt8) (i : Nat)
+    (hc : 1 ≤ chn ∧ chn ≤ 32) (hp : S3m.PatOk chn p) (rest : Bytes) :
+    S3m.unpack chn (le16 ((S3m.pack chn p force fx i).length + 2) ++ S3m.pack chn p force fx i ++ rest) = some p :=
+  S3m.unpack_pack chn p force fx i hc hp rest
+
+example : S3m.PatOk 2 { rows := 64, cells := (List.range 128).map fun k =>
+    if k = 0 then { note := 61, ins := 3, vol := 65 } else if k = 5 then { note := KEY_OFF, ins := 0, vol := 0 } else {} } := by
+  decide +kernel
+
+theorem C19_s3m_note_codec {n : Nat} (h : S3m.NoteOk n) : S3m.decNote (S3m.encNote n) = n :=
+  S3m.decNote_encNote h
+
+/-! ## XM -/
+
+/-- **XM cell codec**: unpacked (`mode = 32`) and every packed form -/
+theorem C19_xm_cell_codec (c : Cell) (h : Xm.CellOk c) (fx : UInt8 × UInt8) (volfx : UInt8) (mode : Nat) (rest : Bytes) :
+    Xm.decCell (Xm.encCell c fx volfx mode ++ rest) = some (c, rest) :=
+  Xm.decCell_encCell c h fx volfx mode rest
+
+theorem C19_xm_cells_codec (cs : List Cell) (h : ∀ c ∈ cs, Xm.CellOk c) (fx : Nat → UInt8 × UInt8)
+    (volfx : Nat → UInt8) (mode : Nat → Nat) (i : Nat) (rest : Bytes) :
+    Xm.decCells cs.length (Xm.encCells fx volfx mode cs i ++ rest) = some cs :=
+  Xm.decCells_encCells cs h fx volfx mode i rest
+
+example : Xm.CellOk { note := KEY_FADE, ins := 7, vol := 33 } ∧ Xm.CellOk { note := 108, ins := 0, vol := 0 } := by decide
+
+/-! ## IT -/
+
+/-- IT pattern *field* codecs (note incl. off/cut/fade codes, volume, instrument).  Missing for the
+full `C19_it_pattern_codec`: the coupling invariant between the writer's and the reader's per-channel
+mask / last-value memory across entries and rows. -/
+theorem C19_it_field_codecs_partial :
+    (∀ n fade, It.NoteOk n → n ≠ 0 → It.decNote (It.encNote n fade) = n) ∧
+    (∀ v, 1 ≤ v → v ≤ 65 → It.decVol (u8 (v - 1)).toNat = v) ∧
+    (∀ i, i < 256 → (u8 i).toNat = i) :=
+  ⟨fun _ fade h hn => It.decNote_encNote h hn fade, fun _ h1 h2 => It.decVol_encVol h1 h2, fun _ h => It.ins_byte h⟩
+
+/-! ## PCM -/
+
+theorem C19_pcm_sign8_involutive (b : Bytes) : signFlip false (signFlip false b) = b :=
+  signFlip8_involutive b
 
 end Xmp.Fmt
